@@ -252,6 +252,14 @@ class Report:
         """a concrete input on which the property fails on the real code"""
         self.failing.append({"what": what, "class": klass, "data": data})
 
+    def unknown_failing(self) -> list:
+        """failing inputs that are NOT instances of an open known finding (the ones that decide whether a
+        failing-input search is still needed and whether the run is a violation)"""
+        known = [k for k in load_known_findings()
+                 if k.get("property") == self.prop and k.get("status", "open") == "open"]
+        classes = {k.get("class") for k in known if k.get("class")}
+        return [f for f in self.failing if not (f["class"] and f["class"] in classes)]
+
     # -- output
     def finish(self) -> int:
         REPLAYS.mkdir(exist_ok=True)
